@@ -7,6 +7,10 @@ package main
 //   gfx.hist  <n> <linehex>*n                  | <RESULT>
 //   gfx.rt    <type> <W> <H> <off> <X> <Y> <ids,comma> <imagehex> <k> (<pos> <linehex>)*k
 //                                              | L <n> <linehex>*n <RESULT on the encoder's lines with the k extra lines inserted>
+//   gfx.multi <m> (<s> (<type> <W> <H> <off> <X> <Y> <ids,comma> <imagehex>)*s)*m <k> (<pos> <linehex>)*k
+//                                              | L <n> <linehex>*n <RESULT …>   ONE encoder call on m InboundMessages, message i
+//                                              carrying s_i states with one image each (any formats / targets / sizes / offset
+//                                              flags, in the given order); the k extra lines woven in as for gfx.rt
 // RESULT := B <k> MSG*k F <g> <hex>*g                              batch: one call on all lines
 //           S <m> (<lineindex> <k> MSG*k)*m F <g> <hex>*g R STATE  ASCIIreader.Parse line by line
 //           J <m> (<lineindex> <k> MSG*k)*m F <g> <hex>*g R STATE  same, reader through json.Marshal/Unmarshal between lines
@@ -248,6 +252,52 @@ func (e *gfxExec) history(lines []string) string {
 	return sb.String()
 }
 
+type gfxIns struct {
+	pos  int
+	line string
+}
+
+func gfxParseIds(t string) []uint32 {
+	ids := []uint32{}
+	if t != "-" {
+		for _, s := range strings.Split(t, ",") {
+			v, _ := strconv.ParseUint(s, 10, 32)
+			ids = append(ids, uint32(v))
+		}
+	}
+	return ids
+}
+
+// encodeAndFeed: ONE call of the encoder on the messages, then the lines it returned (with the extra lines inserted,
+// stable by position) through the three feeding disciplines
+func (e *gfxExec) encodeAndFeed(msgs []*rwp.InboundMessage, extra []gfxIns) string {
+	var enc []string
+	p := guarded(func() {
+		enc = rawpanellib.InboundMessagesToRawPanelASCIIstrings(msgs)
+	})
+	if p != "" {
+		return "L " + p
+	}
+	var sb strings.Builder
+	fmt.Fprintf(&sb, "L %d", len(enc))
+	for _, l := range enc {
+		sb.WriteString(" " + hx([]byte(l)))
+	}
+	sort.SliceStable(extra, func(i, j int) bool { return extra[i].pos < extra[j].pos })
+	lines := []string{}
+	ei := 0
+	for i := 0; i <= len(enc); i++ {
+		for ei < len(extra) && (extra[ei].pos <= i || i == len(enc)) {
+			lines = append(lines, extra[ei].line)
+			ei++
+		}
+		if i < len(enc) {
+			lines = append(lines, enc[i])
+		}
+	}
+	return sb.String() + " " + e.history(lines)
+}
+
 func (e *gfxExec) Exec(cmd string, a []string) string {
 	gfxSilenceLibraryLog()
 	switch cmd {
@@ -279,50 +329,40 @@ func (e *gfxExec) Exec(cmd string, a []string) string {
 		return e.history(lines)
 	case "gfx.rt":
 		ty, w, h, off, x, y := atoi(a[0]), atoi(a[1]), atoi(a[2]), abool(a[3]), atoi(a[4]), atoi(a[5])
-		ids := []uint32{}
-		if a[6] != "-" {
-			for _, s := range strings.Split(a[6], ",") {
-				v, _ := strconv.ParseUint(s, 10, 32)
-				ids = append(ids, uint32(v))
-			}
-		}
+		ids := gfxParseIds(a[6])
 		img := unhx(a[7])
 		k := atoi(a[8])
-		type ins struct {
-			pos  int
-			line string
-		}
-		extra := []ins{}
+		extra := []gfxIns{}
 		for i := 0; i < k; i++ {
-			extra = append(extra, ins{atoi(a[9+2*i]), string(unhx(a[10+2*i]))})
+			extra = append(extra, gfxIns{atoi(a[9+2*i]), string(unhx(a[10+2*i]))})
 		}
-		var enc []string
-		p := guarded(func() {
-			msg := &rwp.InboundMessage{States: []*rwp.HWCState{{HWCIDs: ids, HWCGfx: &rwp.HWCGfx{
-				ImageType: rwp.HWCGfx_ImageTypeE(ty), W: uint32(w), H: uint32(h), XYoffset: off, X: uint32(x), Y: uint32(y), ImageData: img}}}}
-			enc = rawpanellib.InboundMessagesToRawPanelASCIIstrings([]*rwp.InboundMessage{msg})
-		})
-		if p != "" {
-			return "L " + p
-		}
-		var sb strings.Builder
-		fmt.Fprintf(&sb, "L %d", len(enc))
-		for _, l := range enc {
-			sb.WriteString(" " + hx([]byte(l)))
-		}
-		sort.SliceStable(extra, func(i, j int) bool { return extra[i].pos < extra[j].pos })
-		lines := []string{}
-		ei := 0
-		for i := 0; i <= len(enc); i++ {
-			for ei < len(extra) && (extra[ei].pos <= i || i == len(enc)) {
-				lines = append(lines, extra[ei].line)
-				ei++
+		msg := &rwp.InboundMessage{States: []*rwp.HWCState{{HWCIDs: ids, HWCGfx: &rwp.HWCGfx{
+			ImageType: rwp.HWCGfx_ImageTypeE(ty), W: uint32(w), H: uint32(h), XYoffset: off, X: uint32(x), Y: uint32(y), ImageData: img}}}}
+		return e.encodeAndFeed([]*rwp.InboundMessage{msg}, extra)
+	case "gfx.multi":
+		pos := 0
+		next := func() string { pos++; return a[pos-1] }
+		m := atoi(next())
+		msgs := make([]*rwp.InboundMessage, 0, m)
+		for i := 0; i < m; i++ {
+			ns := atoi(next())
+			msg := &rwp.InboundMessage{}
+			for j := 0; j < ns; j++ {
+				ty, w, h, off, x, y := atoi(next()), atoi(next()), atoi(next()), abool(next()), atoi(next()), atoi(next())
+				ids := gfxParseIds(next())
+				img := unhx(next())
+				msg.States = append(msg.States, &rwp.HWCState{HWCIDs: ids, HWCGfx: &rwp.HWCGfx{
+					ImageType: rwp.HWCGfx_ImageTypeE(ty), W: uint32(w), H: uint32(h), XYoffset: off, X: uint32(x), Y: uint32(y), ImageData: img}})
 			}
-			if i < len(enc) {
-				lines = append(lines, enc[i])
-			}
+			msgs = append(msgs, msg)
 		}
-		return sb.String() + " " + e.history(lines)
+		k := atoi(next())
+		extra := []gfxIns{}
+		for i := 0; i < k; i++ {
+			p := atoi(next())
+			extra = append(extra, gfxIns{p, string(unhx(next()))})
+		}
+		return e.encodeAndFeed(msgs, extra)
 	}
 	panic("unknown record " + cmd)
 }
@@ -643,6 +683,89 @@ func genMatch(r *Rng, n int) {
 	}
 }
 
+// genMulti: ONE encoder call carrying several graphics states: every ordered pair and triple over the six image kinds
+// {MONO, RGB16bit, Gray4bit} x {without, with offset}, each tuple in every way of spreading its states over the
+// InboundMessages of the call that keeps their order (all in one message; one message per state; for triples also 2+1 and
+// 1+2), with sizes around the chunk size, equal / different / several targets per state, different dimensions, now and
+// then an empty image or a state without target, and (every third record) non-graphics lines woven in.  The encoder's
+// lines then go through the batch decoder, the streaming reader and the serialised reader like a gfx.rt record.
+func genMulti(r *Rng, reps int) {
+	type kind struct {
+		ty  int
+		off bool
+	}
+	kinds := []kind{}
+	for ty := 0; ty < 3; ty++ {
+		kinds = append(kinds, kind{ty, false}, kind{ty, true})
+	}
+	state := func(k kind) ([]string, int) {
+		n := r.Pick(1, 2, 3, 40, 169, 170, 171, 256, 340, 341, 400, 511)
+		if r.Chance(6) {
+			n = 0
+		}
+		nids := r.Pick(1, 1, 1, 2, 3)
+		if r.Chance(4) {
+			nids = 0
+		}
+		ids := make([]string, nids)
+		for i := range ids {
+			ids[i] = strconv.Itoa(r.Pick(5, 5, 5, 6, 7, 38, 255, 4095, 65536, 4294967295))
+		}
+		idt := "-"
+		if nids > 0 {
+			idt = strings.Join(ids, ",")
+		}
+		w, h := r.Pick(1, 8, 64, 64, 112, 4096), r.Pick(1, 8, 32, 32, 48, 65535)
+		x, y := 0, 0
+		if k.off || r.Chance(10) {
+			x, y = r.Pick(0, 1, 7, 100, 65535), r.Pick(0, 1, 9, 300)
+		}
+		return []string{strconv.Itoa(k.ty), strconv.Itoa(w), strconv.Itoa(h), b01(k.off), strconv.Itoa(x), strconv.Itoa(y), idt, hx(r.Bytes(n))},
+			((n + 169) / 170) * nids
+	}
+	count := 0
+	one := func(ks []kind, split []int) { // split: number of states per message, in order
+		as := []string{strconv.Itoa(len(split))}
+		total, at := 0, 0
+		for _, ns := range split {
+			as = append(as, strconv.Itoa(ns))
+			for j := 0; j < ns; j++ {
+				st, lines := state(ks[at])
+				at++
+				total += lines
+				as = append(as, st...)
+			}
+		}
+		k := 0
+		extra := []string{}
+		if count%3 == 2 {
+			k = r.Range(1, 4)
+			for i := 0; i < k; i++ {
+				extra = append(extra, strconv.Itoa(r.Range(0, total)), hx([]byte(gfxPassThrough[r.Intn(len(gfxPassThrough))])))
+			}
+		}
+		count++
+		as = append(as, strconv.Itoa(k))
+		as = append(as, extra...)
+		emitS("gfx.multi", as)
+	}
+	for rep := 0; rep < reps; rep++ {
+		for _, a := range kinds {
+			for _, b := range kinds {
+				one([]kind{a, b}, []int{2})
+				one([]kind{a, b}, []int{1, 1})
+				for _, c := range kinds {
+					t := []kind{a, b, c}
+					one(t, []int{3})
+					one(t, []int{1, 1, 1})
+					one(t, []int{2, 1})
+					one(t, []int{1, 2})
+				}
+			}
+		}
+	}
+}
+
 func genC05(r *Rng, n int, tier string) {
 	thorough := tier == "thorough"
 	full, reduced, core := gfxAlphabets()
@@ -678,6 +801,12 @@ func genC05(r *Rng, n int, tier string) {
 	}
 	for i := 0; i < n/10; i++ {
 		genRT(r, r.Range(1100, 6000), r.Intn(3), r.Bool(), r.Range(1, 3), r.Chance(30))
+	}
+	// (f) several graphics states in one encoder call (one message / several messages), all ordered pairs and triples of kinds
+	if thorough {
+		genMulti(r, 4)
+	} else {
+		genMulti(r, 1)
 	}
 	// (e) edges of the trusted pieces: Unicode white space, invalid UTF-8 through the JSON hop, numbers around 2^32 / 2^63
 	genEdge(r, 4*n)
